@@ -81,6 +81,7 @@ struct IF
 	virtual int countMixin() const = 0;      // 0 none, 1 count after filter, 2 count before filter
 	virtual bool canContinue() const { return false; }
 	virtual bool twoDispatchers() const { return false; } // adapter subject: reference and shared_ptr dispatchers
+	virtual bool continueByValue() const { return false; } // canContinueInvoking taking by-value arguments: stops iff a < 0
 	virtual void appendFilter(int id) = 0;
 	virtual bool removeFilter(int h) = 0;
 	virtual void addListener(int key, int id, int kind, int how) = 0;
@@ -183,6 +184,46 @@ struct Cont : IF
 	long count() override { return 0; }
 };
 
+// canContinueInvoking with a by-value, movable argument and a policy that takes its arguments by value:
+// every listener must still receive the dispatched values, and the policy decides on those same values
+struct PContinueVal
+{
+	static bool canContinueInvoking(std::string s, int a) { return a >= 0 || s.size() > 1000; }
+	using Mixins = eventpp::MixinList<eventpp::MixinFilter>;
+	using ArgumentPassingMode = eventpp::ArgumentPassingExcludeEvent;
+};
+struct LstVal : LedgeredT<2>
+{
+	explicit LstVal(int id_) : LedgeredT<2>(kCbBase + id_) {}
+	void operator() (std::string s, int a) const { touch(); onListener(id - kCbBase, a, s, 0); }
+};
+struct FltVal : LedgeredT<5>
+{
+	explicit FltVal(int id_) : LedgeredT<5>(kAuxBase + id_) {}
+	bool operator() (std::string & s, int & a) const { touch(); return onFilter(id - kAuxBase, a, s, true); }
+};
+template <bool IsQueue>
+struct ContVal : IF
+{
+	typedef typename std::conditional<IsQueue, eventpp::EventQueue<int, void (std::string, int), PContinueVal>, eventpp::EventDispatcher<int, void (std::string, int), PContinueVal> >::type D;
+	D d;
+	std::vector<typename D::FilterHandle> fh;
+	std::vector<typename D::Handle> lh;
+	bool hasFilters() const override { return true; }
+	bool canWriteA() const override { return true; }
+	int listenerKinds() const override { return 1; }
+	int countMixin() const override { return 0; }
+	bool continueByValue() const override { return true; }
+	void appendFilter(int id) override { fh.push_back(d.appendFilter(FltVal(id))); }
+	bool removeFilter(int h) override { return d.removeFilter(fh[(size_t)h]); }
+	void addListener(int key, int id, int, int how) override { lh.push_back(how & 1 ? d.prependListener(key, LstVal(id)) : d.appendListener(key, LstVal(id))); }
+	bool removeListener(int key, int h) override { return d.removeListener(key, lh[(size_t)h]); }
+	void go(int key, Args & c, std::true_type, bool queued) { if(queued) { d.enqueue(key, c.s, c.a); d.process(); } else d.dispatch(key, c.s, c.a); }
+	void go(int key, Args & c, std::false_type, bool) { d.dispatch(key, c.s, c.a); }
+	void dispatch(int key, const Args & a, bool queued, Args & callerAfter) override { callerAfter = a; go(key, callerAfter, std::integral_constant<bool, IsQueue>(), queued); }
+	long count() override { return 0; }
+};
+
 // argumentAdapter with reference / shared_ptr down-casts (no filters)
 struct Adapt : IF
 {
@@ -227,7 +268,7 @@ struct Adapt : IF
 	long count() override { return 0; }
 };
 
-const int kConfigs = 8;
+const int kConfigs = 10;
 IF * makeImpl(int cfg)
 {
 	using DA = eventpp::EventDispatcher<int, void (int, std::string), PFilter>;
@@ -247,7 +288,9 @@ IF * makeImpl(int cfg)
 	case 4: return new Heter<HD, false>();
 	case 5: return new Homo<QA, true, 0, true>();
 	case 6: return new Cont();
-	default: return new Adapt();
+	case 7: return new Adapt();
+	case 8: return new ContVal<false>();
+	default: return new ContVal<true>();
 	}
 }
 
@@ -385,6 +428,7 @@ struct Interp
 			// listeners of the canContinueInvoking subject may raise the stop flag (rule on the listener)
 			if((sp.rule % 3) == 0) { pendingStop = true; }
 		}
+		if(impl->continueByValue() && f.cur.a < 0) { f.stopped = true; stoppedByPolicy = true; }
 		if(--fuel > 0 && lbody[(size_t)id] && ! lbody[(size_t)id]->empty()) exec(*lbody[(size_t)id], (int)frames.size());
 	}
 	bool pendingStop = false;
